@@ -88,9 +88,9 @@ MODEL_BATCH = [[], [], [], [2], [2], [3], [2, 2]]
 
 @st.composite
 def exact_case(draw, names=None, depth=2, nmax=6, nsmax=4, lik_kinds=("Gaussian", "Gaussian", "FixedNoise", "FixedNoise+"),
-               test_batches=True):
+               test_batches=True, model_batches=None):
     d = draw(st.integers(1, 3))
-    mb = draw(st.sampled_from(MODEL_BATCH))
+    mb = draw(st.sampled_from(model_batches or MODEL_BATCH))
     xb = draw(st.sampled_from([[], mb])) if mb else []
     n = draw(st.integers(1, nmax))
     ns = draw(st.integers(1, nsmax))
